@@ -384,7 +384,8 @@ class ComponentLevel2( ComponentLevel1 ):
       for blk, calls in m._dsl.upblk_calls.items():
         s._dsl.all_upblk_calls[ blk ] = calls
 
-        for call in calls:
+        # The calls made inside the called functions are added to the set
+        for call in list( calls ):
 
           # Expand function calls. E.g. upA calls fx, fx calls fy and fz
           # This is invalid: fx calls fy but fy also calls fx
@@ -395,9 +396,12 @@ class ComponentLevel2( ComponentLevel1 ):
             if u not in m._dsl.func_reads:
               return
 
-            # Add all read/write of funcs to the outermost upblk
+            # Add all read/write of funcs to the outermost upblk, and the
+            # method ports the func calls
             s._dsl.all_upblk_reads [ blk ] |= m._dsl.func_reads[u]
             s._dsl.all_upblk_writes[ blk ] |= m._dsl.func_writes[u]
+            s._dsl.all_upblk_calls [ blk ] |= { x for x in m._dsl.func_calls[u]
+                                                  if x not in m._dsl.func_reads }
 
             for v in m._dsl.func_calls[ u ]:
               if v in caller: # v calls someone else there is a cycle
